@@ -265,6 +265,37 @@ def run(chk):
                             defaults += [bool(r.value[1]) for r in o2 if r.value[0] == "const"]
                     got[f] = defaults[0] if len(defaults) == 1 else defaults
             chk.ob("R4 defaults", "R4|%s|serde-defaults" % tname, got == want, where(b), "value used for a missing member: %s (CTAP: %s)" % (got, want))
+            # encode side of the same clause: a member the encoder leaves out decodes to the absent-default, so leaving it
+            # out is sound only for that value. Each member is either written on every path, or the guard of its
+            # write is evaluated for both truth values and must skip exactly the absent-default (a guard the engine
+            # cannot evaluate is reported as undecided, not accepted).
+            from . import serde_model as _sm
+            Nk = normal.Normalizer(p, S2)
+            for sb in _sm.bodies_of_impl(p, "Serialize", opts[0]["id"]):
+                chk.touched(sb)
+                Ts = flow.Terms(p, sb)
+                seen_m, bad_m = {}, []
+                for bb, t in sb.calls():
+                    if not names.call_is(t, "SerializeStruct::serialize_field", "SerializeMap::serialize_entry"):
+                        continue
+                    val = flow.simplify_term(Ts.operand(t["args"][2], bb, "t"))
+                    fld = next((x[2] for x in _sm.sub(val) if isinstance(x, tuple) and len(x) == 3 and x[0] == "field" and x[1] == ("param", 1)), None)
+                    if fld not in want:
+                        continue
+                    guards = [(l, c) for s0, l, c in flow.conditions(p, sb, bb, Ts)
+                              if not (c[0] == "discr" and isinstance(c[1], tuple) and c[1] and c[1][0] == "try") and _sm.is_conditional([(s0, l, c)])]
+                    seen_m[fld] = "always" if not guards else "guarded"
+                    for l, c in guards:
+                        for v in (0, 1):
+                            cv = Nk.norm(summary.replace(c, ("field", ("param", 1), fld), ("const", v)))
+                            ds = normal.dnf_cond(cv, l)
+                            written = True if ds == [[]] else (False if ds == [] else None)
+                            if written is None:
+                                bad_m.append("%s: guard %s not evaluated for %s = %s" % (fld, flow.term_str(c)[:70], fld, bool(v)))
+                            elif not written and bool(v) != got.get(fld):
+                                bad_m.append("%s = %s is left out but an absent %s decodes to %s" % (fld, bool(v), fld, got.get(fld)))
+                chk.ob("R4 defaults", "R4|%s|left-out-only-at-the-absent-default" % tname, not bad_m and set(seen_m) == set(want), where(sb),
+                       "members written by the encoder: %s; problems: %s" % (seen_m, bad_m))
 
     # ---------------- R6
     classes = {}
